@@ -1,12 +1,3 @@
-//! C08 (FRI completeness) and C09 (FRI rejection).
-
-use vcore::*;
-
-mod common;
-mod c08;
-mod c09;
-
 fn main() {
-    vref::field::startup_selfcheck();
-    main_with(vec![c08::prop(), c09::prop()]);
+    vcore::main_with(vfri::props());
 }
